@@ -12,8 +12,9 @@ func Yield(site string, key ...int) {}
 func Released(b []byte) {}
 
 // PermuteBatch lets the simulator replay any iteration order of a Go map
-// whose elements were collected into a slice of length n.
-func PermuteBatch(n int, swap func(i, j int)) {}
+// whose elements were collected into a slice of length n; key(i) identifies
+// element i so that the simulator can first undo the runtime's random order.
+func PermuteBatch(n int, key func(i int) [2]int, swap func(i, j int)) {}
 
 // ReorderTriplets lets the simulator choose the emission order of serialised
 // tag/length/value triplets.
